@@ -282,6 +282,13 @@ pub fn run(op: &str, case: &Value) -> Result<Value> {
             let b = f.evaluate_bound(&bounds);
             json!({"ok": {"bound": [fj(b.lower()), fj(b.upper())]}})
         }
+        "mps_load" => {
+            let text = case["text"].as_str().ok_or_else(|| anyhow!("text"))?;
+            match ommx::mps::load_raw_reader(text.as_bytes()) {
+                Ok(i) => json!({"ok": {"instance": enc(&i)}}),
+                Err(e) => json!({"err": format!("{e}")}),
+            }
+        }
         _ => bail!("unknown op {op}"),
     })
 }
